@@ -16,6 +16,10 @@ Decided:
             replayed frames together with a wal_sequence that still marks their records as pending, so a process
             crash before the second header write makes the next open replay them again (duplicate frames).
             Interprocedural: a local callee counts if it transitively reaches persist_header / HeaderCodec::write.
+  MPT-C04e  replayed state changes are idempotent: the appliers of delete/supersede records (mark_frame_deleted,
+            mark_frame_superseded, called by apply_records) have no error exit that depends on the target frame's
+            status. A tombstone can legitimately be replayed against a frame the persisted TOC already shows as
+            deleted (the window of MPT-C04d); rejecting it makes every later open fail.
 Not decided: nested crashes during recovery (crash points)."""
 from . import lib
 from .facts import op_place
@@ -104,6 +108,28 @@ def run(ctx):
                     line=c.line, sink=path[0], detail='header-persisted-before-checkpoint:' + path[0])
         if window and not [h for h in hits if h[1][0] not in CANDIDATE_VIA]:
             ctx.ok('MPT-C04d', fn, 'no header persist between apply_records and record_checkpoint', line=rc[0].line)
+    # ---- e
+    ctx.rule('MPT-C04e', 'mark_frame_deleted / mark_frame_superseded: no error exit conditioned on Frame.status (replay is idempotent)')
+    for key in ('Memvid::mark_frame_deleted', 'Memvid::mark_frame_superseded'):
+        g = ctx.need('MPT-C04e', key)
+        if g is None:
+            continue
+        ctx.touch(g, len(g.blocks))
+        errs = lib.enum_constructions(g, 'MemvidError')
+        tests = []
+        for c in lib.comparisons(g):
+            if c.sa().has_field('Frame', 'status') or c.sb().has_field('Frame', 'status'):
+                tests += [(c.bb, t, c.line) for t, rel in c.edges() if t is not None]
+        for vs in lib.variant_switches(g):
+            if vs.get('enum') == 'FrameStatus' or ('Frame', 'status') in vs['place'].field_owners():
+                tests += [(vs['bb'], t, vs['line']) for t in vs['arms'].values()]
+        ctx.evaluations += len(errs) + len(tests)
+        hit = [(e, ln) for e in errs for (b, t, ln) in tests if lib.edge_dominates(g, b, t, e['bb'])]
+        if hit:
+            ctx.bad('MPT-C04e', g, 'an error exit depends on the target frame\'s status (test at line %s): replaying the record against a TOC that already reflects it fails, '
+                    'and so does every later open' % hit[0][1], line=hit[0][0].get('line'), detail='status-dependent-error')
+        else:
+            ctx.ok('MPT-C04e', g, 'no error exit depends on Frame.status (%d error sites, %d status tests)' % (len(errs), len(tests)))
     ol = ctx.need('MPT-C04b', 'Memvid::open_locked')
     if ol is not None:
         ctx.touch(ol, len(ol.blocks))
